@@ -44,24 +44,26 @@ func validatedState(s state.IdentityState) bool {
 }
 
 type c17World struct {
-	w          *World
-	sim        *CeremonySim
-	rep        *verifutil.Report
-	variant    map[*Replica]string // replica -> variant class used in violation signatures
-	restarters []*Replica
-	rsPhase    map[*Replica]string
-	fresh      *Replica
-	alt, rival *Replica
-	K          int
-	orders     map[string]bool
-	pre        map[common.Address]state.Identity
-	shard      int
-	worldNo    int
-	altTx      *types.Transaction
-	stats      *statsTypes.ValidationStats // statistics object of the proposer's first-pass evaluation
-	chainLive  bool // the 3-link transitive delegation chain is on chain in this epoch
-	nondet     bool // the proposer's own re-executions of the final block disagreed
-	altNote    string
+	w                *World
+	sim              *CeremonySim
+	rep              *verifutil.Report
+	variant          map[*Replica]string // replica -> variant class used in violation signatures
+	restarters       []*Replica
+	rsPhase          map[*Replica]string
+	fresh            *Replica
+	alt, rival       *Replica
+	K                int
+	orders           map[string]bool
+	pre              map[common.Address]state.Identity
+	shard            int
+	worldNo          int
+	altTx            *types.Transaction
+	stats            *statsTypes.ValidationStats // statistics object of the proposer's first-pass evaluation
+	nodeRestartPhase string                      // phase in which the proposing node Replicas[3] is restarted this epoch ("" = not)
+	nodeRestarted    *Replica                    // ... done
+	chainLive        bool                        // the 3-link transitive delegation chain is on chain in this epoch
+	nondet           bool                        // the proposer's own re-executions of the final block disagreed
+	altNote          string
 }
 
 func (c *c17World) variantOf(r *Replica, proposer *Replica) string {
@@ -110,6 +112,9 @@ func (c *c17World) finalBlock(b *types.Block, p *Replica) {
 	w := c.w
 	c.rep.Progress("C17 world %d seed %d: final block %d of epoch %d", c.worldNo, w.Opt.Seed, b.Height(), c.sim.Plan.Epoch)
 	c.rep.Count("real_epochs_driven", 1)
+	if p == c.nodeRestarted {
+		c.rep.Count("final_block_built_by_restarted_node", 1)
+	}
 	// the proposer evaluated once while building (first pass); every further evaluation hits its
 	// cache. Same node, same block, same prior state: every evaluation must give the same verdict.
 	c.stats = p.Real().VC.VerifValidationStats()
@@ -229,7 +234,7 @@ func (c *c17World) competingProposal() {
 			}
 			ps := c.pre[a].State
 			// first choice: an identity that the ceremony is going to kill (its stake handling depends on "participated" before upgrade 12)
-			if pass == 0 && (ps == state.Newbie || ps == state.Candidate || ps == state.Zombie) || pass == 1 {
+			if pass == 0 && (ps == state.Zombie || pl.Epoch < 5 && (ps == state.Newbie || ps == state.Candidate)) || pass == 1 {
 				X = w.ByAddr[a]
 				break
 			}
@@ -339,6 +344,14 @@ func (c *c17World) afterFinal(b *types.Block) {
 	}
 	rep.Count("evals_first_pass", nFirst)
 	rep.Count("evals_cache_hit", nCached)
+	if ref != nil {
+		for name, marker := range map[string]string{"bad_authors": `"BadAuthors":["`, "good_authors": `"GoodAuthors":["`, "rewarded_reporters": `"Reporters":["`,
+			"successful_invites": `/age`, "pools": `"Pools":["`, "non_validated_stakes": `"NonValidated":["`} {
+			if strings.Contains(ref.Dump, marker) {
+				rep.Count("real_epochs_with_"+name, 1)
+			}
+		}
+	}
 	// 2. state contents equal everywhere
 	var refR *Replica
 	var refD StateDigest
@@ -432,12 +445,20 @@ func (c *c17World) afterFinal(b *types.Block) {
 	} else if len(pl.Chain3) == 3 {
 		rep.Count("real_transitive_chain2_epochs", 1)
 	}
+	if len(pl.Chain3) >= 3 {
+		// the ceremony removes the delegation of a newly validated delegator whose delegatee delegates itself
+		a := c.pre[pl.Chain3[0]]
+		postA := st.GetIdentity(pl.Chain3[0])
+		if a.Delegatee() != nil && postA.Delegatee() == nil && validatedState(postA.State) {
+			rep.Count("real_transitive_delegation_removed", 1)
+		}
+	}
 	for _, id := range c.pre {
 		if id.Delegatee() != nil {
 			rep.Count("real_delegated_identities", 1)
 		}
 	}
-	if c.shard == 0 && c.worldNo == 0 {
+	if c.shard == 0 && c.worldNo == 0 && pl.Epoch >= 1 {
 		d := ""
 		if ref != nil {
 			d = ref.Dump
@@ -604,6 +625,17 @@ func TestVerifC17Real(t *testing.T) {
 					rep.Count("restart_at_"+phase, 1)
 				}
 			}
+			// in every third epoch one of the PROPOSING nodes is restarted too: it may well be the one
+			// that builds the validation-finishing block from its restored ceremony state
+			if c.nodeRestartPhase == phase {
+				r := w.Replicas[3]
+				if err := r.Restart(); err != nil {
+					rep.Violation("restart-failed:"+phase, fmt.Sprintf("clean restart of a proposing node in phase %s failed: %v", phase, err), nil)
+				} else {
+					rep.Count("restart_of_proposing_node", 1)
+					c.nodeRestarted = r
+				}
+			}
 		}
 		sim.BeforeFinal = func() bool {
 			c.snapshotPre()
@@ -620,7 +652,13 @@ func TestVerifC17Real(t *testing.T) {
 				c.finalBlock(b, p)
 			}
 		}
-		for e := 0; e < nEpochs && !sim.Stopped; e++ {
+		epochsHere := nEpochs
+		if verifutil.Thorough() && wn == 0 && o.Version != config.ConsensusV12 {
+			// before upgrade 12 the cached "participated" bit decides the stake handling of a killed
+			// Suspended/Zombie identity of age >= 5: needs a long-lived world (competing proposals, suspect i)
+			epochsHere = 8
+		}
+		for e := 0; e < epochsHere && !sim.Stopped; e++ {
 			rep.Progress("C17 world %d seed %d epoch %d", wn, seed, e)
 			for i, r := range c.restarters {
 				c.rsPhase[r] = c17Phases[(shard+wn+e+2*i)%4]
@@ -629,7 +667,7 @@ func TestVerifC17Real(t *testing.T) {
 			// A->P->Q->R (whose outcome turned out to depend on map order, see spec) only in the
 			// last epoch of every second shard's world, because the world rarely survives it
 			sim.ChainLinks = 0
-			if e == nEpochs-1 && (shard+wn)%2 == 0 {
+			if e == epochsHere-1 && (shard+wn)%2 == 0 {
 				sim.ChainLinks = 3
 			} else if rng.Intn(2) == 0 {
 				sim.ChainLinks = 2
@@ -638,6 +676,10 @@ func TestVerifC17Real(t *testing.T) {
 				sim.ChainLinks = 2
 			}
 			c.pre, c.nondet, c.chainLive = nil, false, false
+			c.nodeRestartPhase, c.nodeRestarted = "", nil
+			if (shard+wn+e)%3 == 0 {
+				c.nodeRestartPhase = c17Phases[(shard+wn+2*e)%4]
+			}
 			b := sim.RunEpoch()
 			if sim.Plan != nil && len(sim.Plan.Chain3) == 4 {
 				rep.Count("real_transitive_chain3_epochs", 1)
